@@ -137,4 +137,7 @@ def histories_for(pid, tier):
 def tags_for(pid):
     if pid == 'C10':
         return ['C10:']
+    if pid == 'C12':
+        # every C12 harness contains a clear: the cleared collection has to be valid and to answer like a new one afterwards
+        return ['C12:', 'C01:', 'C02:', 'C04:', 'C05:', 'C06:', 'C08:', 'C09:', 'C11:']
     return [pid + ':']
